@@ -187,6 +187,9 @@ func runJob(job *Job) *Result {
 	if job.Scenario.Sweep && job.Scenario.E2 != nil {
 		x.onState = x.sweepState
 	}
+	if job.Scenario.Twin && job.Scenario.E2 != nil {
+		x.onState = x.twinState
+	}
 	if o := job.Scenario.Oracle; o == "C08" || o == "C09" || o == "C16" {
 		x.onTerminal = func(w *World, path []Event) {
 			if !w.done() && w.steps < w.sc.MaxDepth {
